@@ -396,7 +396,7 @@ class Client:
 
     def __get_capabilities(self) -> bool:
         code, data, capabilities = self.__read_response()
-        if code == "NO":
+        if code == b"NO":
             return False
 
         for tokens in self.__response_lines:
@@ -635,6 +635,10 @@ class Client:
         :param authmech: prefered authenticate mechanism
         :rtype: boolean
         """
+        # forget everything about a previous connection
+        self.__read_buffer = b""
+        self.__capabilities = {}
+        self.authenticated = False
         try:
             self.sock = socket.create_connection((self.srvaddr, self.srvport))
             self.sock.settimeout(Client.read_timeout)
